@@ -182,6 +182,14 @@ func (p *parser) value(t reflect.Type) reflect.Value {
 			if err != nil {
 				panic(err)
 			}
+			if roMode && len(b) == 0 && extra > 0 && t == reflect.TypeOf([]byte(nil)) {
+				// an EMPTIED byte slice (x = x[:0], storage kept) whose storage is a string's: text is assigned to []byte
+				// elements by reference, so the storage behind an emptied element may be read-only string memory or another
+				// value's bytes - nothing may be rendered into it (C20_text_is_never_rewritten_in_place says the code never does)
+				r := roBytes([]byte(strings.Repeat("~", extra)))
+				v.Set(reflect.ValueOf(r[:0:extra]))
+				return v
+			}
 			s := reflect.MakeSlice(t, len(b), len(b)+extra)
 			reflect.Copy(s, reflect.ValueOf(b))
 			v.Set(s)
